@@ -108,6 +108,8 @@ type Plan struct {
 	Streams  []StreamPlan   `json:"streams,omitempty"`
 	Params   map[string]int `json:"params,omitempty"`
 	Targets  []TargetPlan   `json:"targets,omitempty"` // Client scenarios
+	Puppets  [][]PuppetOp   `json:"puppets,omitempty"` // C08: adversarial client scripts
+	Replies  []PuppetReply  `json:"replies,omitempty"` // C08: adversarial server script
 	Lists    [][]int        `json:"lists,omitempty"`   // Client scenarios: target lists (index into Targets, -1 = empty string)
 }
 
@@ -230,6 +232,9 @@ type World struct {
 	TearingDown bool
 	TS       *tState
 	CS       *cState
+	Puppets  []*puppetConn
+	PuppetFlags map[uint64]uint32
+	PuppetLis *Listener
 	byID     map[uint64]*CallRec
 	opIdx    map[int]int
 	Arrivals map[int][]uint64 // client -> call ids in the order they arrived on its shared Done channel
@@ -381,6 +386,20 @@ func (s *Svc) do(ctx context.Context, req, res *Msg, shape string) error {
 	rec := &ExecRec{Server: s.sid, ID: req.ID, Shape: shape, Start: simrt.Seq(), ArgLen: len(req.Pad), G: simrt.Self()}
 	rec.ArgOK = PadOK(req.Pad, ReqKey(req.ID))
 	w.Execs = append(w.Execs, rec)
+	// Behaviour flags are honoured only when they are the ones the harness put
+	// into this request: a corrupted frame (C08) must not script the handler.
+	flags := req.Flags
+	if c := w.byID[req.ID]; c != nil {
+		if c.Flags != flags || c.Arg != req.Arg {
+			flags = 0
+		}
+	} else if pf, ok := w.PuppetFlags[req.ID]; !ok || pf != flags {
+		flags = 0
+	}
+	req = &Msg{ID: req.ID, Flags: flags, Server: req.Server, N: req.N, Arg: req.Arg, Pad: req.Pad}
+	if req.N > 1<<20 {
+		req.N = 8
+	}
 	if req.Flags&FlRetain != 0 {
 		w.retain(req.Pad, "handler-arg", req.ID)
 	}
